@@ -97,6 +97,8 @@ def run(ctx):
         cmds.append("CK " + gen.hx(s))
         f = gen.ubx_frame(rng.randrange(256), rng.randrange(256), s[:40], bad=rng.random() < 0.3)
         cmds.append("ISVALID " + f.hex())
+    for s in gen.long_bodies(rng, ctx.quick()):
+        cmds.append("CK " + gen.hx(s))
     # float engine
     fb = lambda x: "%x" % struct.unpack("<Q", struct.pack("<d", x))[0]
     for _ in range(400 if ctx.quick() else 6000):
@@ -149,6 +151,15 @@ def run(ctx):
             ctx.fail("isvalid-rejects-valid", {"cmd": "ISVALID " + f.hex()}, "True", "False")
         if len(s) and uh.isvalid_checksum(f[:-1] + bytes([f[-1] ^ 1])):
             ctx.fail("isvalid-accepts-bad", {"cmd": "ISVALID " + f.hex()}, "False", "True")
+    for s in gen.long_bodies(rng, ctx.quick()):
+        if uh.calc_checksum(s) != gen.fletcher(s):
+            ctx.fail("checksum-differs", {"cmd": "CK len=%d %s..." % (len(s), s[:16].hex())}, gen.fletcher(s).hex(), uh.calc_checksum(s).hex())
+        f = b"\xb5\x62" + s + gen.fletcher(s)
+        if not uh.isvalid_checksum(f):
+            ctx.fail("isvalid-rejects-valid", {"cmd": "ISVALID len=%d %s..." % (len(f), f[:16].hex())}, "True", "False")
+        g = b"\xb5\x62" + s + uh.calc_checksum(s)
+        if g != f and uh.isvalid_checksum(g):
+            ctx.fail("isvalid-accepts-bad", {"cmd": "ISVALID len=%d %s..." % (len(g), g[:16].hex())}, "False", "True")
     helper_pairs(ctx, rng)
     ctx.evaluations += len(ints)
 
